@@ -28,6 +28,26 @@ _NullCoder _Folder
 '''.split())
 
 
+# names of all public functions and methods the package defines at the pinned snapshot: a module-level function with a NEW public name
+# (`PopNumber(fsm)`) is an extracted helper like a private one
+KNOWN_PUBLIC = frozenset('''
+BeginBuildNumber BuildNumber DoBack DoBackOne DoBuildNumber DoCursorRestore DoCursorSave DoDown DoDownOne DoEmit DoEnableScroll DoEqual
+DoErase DoEraseDown DoEraseEndOfLine DoEraseLine DoForward DoForwardOne DoHome DoHomeOrigin DoLog DoMode DoOperator DoScrollRegion
+DoStartNumber DoUp DoUpOne DoUpReverse EndBuildNumber Error __enter__ __exit__ __init__ __iter__ __str__ add_transition add_transition_any
+add_transition_list bash clear_all_tabs clear_tab close compile_pattern_list connection_lost connection_made constrain cr crlf cursor_back
+cursor_constrain cursor_down cursor_force_position cursor_forward cursor_home cursor_restore_attrs cursor_save cursor_save_attrs
+cursor_unsave cursor_up cursor_up_reverse data_received decode do_decsca do_modecrap do_search do_sgr dump encode eof eof_received
+erase_down erase_end_of_line erase_line erase_screen erase_start_of_line erase_up error errored existing_data expect expect_async
+expect_exact expect_list expect_loop fileno fill fill_region flag_eof flush found get get_abs get_region get_trace get_transition getecho
+getwinsize insert insert_abs interact is_executable_file isalive isatty kill levenshtein_distance lf login logout main new_data newline
+poll_ignore_interrupts preexec_wrapper prepare_pattern pretty process process_list prompt put put_abs python quote read read_nonblocking
+readline readlines repl_run_command_async reset run run_command runu scroll_constrain scroll_down scroll_screen scroll_screen_rows
+scroll_up search select select_ignore_interrupts send sendcontrol sendeof sendintr sendline set_default_transition set_expecter set_prompt
+set_tab set_unique_prompt setecho setwinsize spawnu split_command_line sync_original_prompt terminate timeout try_read_prompt wait
+waitnoecho which write write_ch write_to_stdout writelines zsh
+'''.split())
+
+
 # parameter names of those helpers at the pinned snapshot: a parameter that is not listed here was added by a later edit
 KNOWN_PARAMS = {
     '__interact_copy': 'escape_character input_filter output_filter self', '__interact_read': 'fd self', '__interact_writen': 'data fd self',
@@ -358,7 +378,7 @@ class Inliner(object):
             self.mod_helpers[m] = {}
             for st in t.body:
                 if isinstance(st, (ast.FunctionDef, ast.AsyncFunctionDef)):
-                    if _is_private(st.name) and st.name not in KNOWN_HELPERS:
+                    if (_is_private(st.name) and st.name not in KNOWN_HELPERS) or (not st.name.startswith('_') and st.name not in KNOWN_PUBLIC):
                         self.mod_helpers[m][st.name] = _Helper(st, None, m)
                 elif isinstance(st, ast.ClassDef):
                     for f in st.body:
